@@ -558,26 +558,29 @@ func ruleDotFailAndPrune(rule string) RuleFn {
 		}
 		// (round 14) a pruned result takes with it only the parameters filed under its whole key
 		if fn := c.Fn(rule, "(*dig/internal/dot.Ctor).removeParam"); fn != nil {
-			whole, partial := 0, 0
+			// fields of the pruned key that take part in the decision; Params carry no group (AddCtor files
+			// grouped parameters under GroupParams), so type and name are what has to be compared
+			fields := map[string]bool{}
 			var at ssa.Instruction
 			an.Instrs(fn, func(in ssa.Instruction) {
-				iff, ok := in.(*ssa.If)
-				if !ok {
-					return
-				}
-				bo, ok := an.Resolve(iff.Cond).(*ssa.BinOp)
+				bo, ok := in.(*ssa.BinOp)
 				if !ok || (bo.Op != token.EQL && bo.Op != token.NEQ) {
 					return
 				}
 				isKey := func(v ssa.Value) bool { return an.IsNamed(v.Type(), an.ModPath+"/internal/dot", "nodeKey") }
 				if isKey(bo.X) && isKey(bo.Y) {
-					whole++
-				} else {
-					partial++
+					fields["t"], fields["name"], fields["group"] = true, true, true
+					at = in
+					return
 				}
-				at = in
+				for _, v := range []ssa.Value{bo.X, bo.Y} {
+					if n := an.Norm(v); strings.HasPrefix(n, "p:k.") {
+						fields[strings.TrimPrefix(n, "p:k.")] = true
+						at = in
+					}
+				}
 			})
-			c.Check(whole > 0 && partial == 0, rule, "removeParam drops exactly the parameters with the pruned result's key", "parameters are compared by their whole nodeKey (type, name and group)", "removeParam decides by a part of the key: pruning a successful constructor of T[name=a] also removes a failed constructor's edge to T[name=b] - the picture of the failure loses the edge to its root cause", at, nil)
+			c.Check(fields["t"] && fields["name"], rule, "removeParam drops exactly the parameters with the pruned result's key", "parameters are compared by type and name (the whole nodeKey, or both fields)", "removeParam decides by a part of the key: pruning a successful constructor of T[name=a] also removes a failed constructor's edge to T[name=b] - the picture of the failure loses the edge to its root cause", at, nil)
 		}
 		if fn := c.Fn(rule, "(*dig/internal/dot.Graph).pruneCtors"); fn != nil {
 			for _, callee := range []string{"(*dig/internal/dot.Graph).pruneCtorParams", "(*dig/internal/dot.Graph).pruneGroupResults"} {
